@@ -86,7 +86,7 @@ pub fn reference(ops: &[Op], t: &[char], pos: usize, min: u32, st: &mut RefStats
         st.steps += 1;
         if t.get(pos) == Some(&o.sym) {
             if let Some((e, r)) = reference(ops, t, pos + 1, o.bp as u32 * 2, st) {
-                cur = Some((e, format!("({}{})[{}..{}]", o.sym, r, pos, e)));
+                cur = Some((e, format!("({}{})[{}..{}]#{}", o.sym, r, pos, e, e)));
                 break;
             }
         }
@@ -107,7 +107,7 @@ pub fn reference(ops: &[Op], t: &[char], pos: usize, min: u32, st: &mut RefStats
             if t.get(p) == Some(&o.sym) {
                 if o.bp as u32 * 2 + 1 >= min {
                     p += 1;
-                    lhs = format!("({}{})[{}..{}]", lhs, o.sym, pos, p);
+                    lhs = format!("({}{})[{}..{}]#{}", lhs, o.sym, pos, p, p);
                     continue 'outer;
                 } else {
                     st.refused_by_power += 1;
@@ -119,7 +119,7 @@ pub fn reference(ops: &[Op], t: &[char], pos: usize, min: u32, st: &mut RefStats
             if t.get(p) == Some(&o.sym) {
                 if lp(o) >= min {
                     if let Some((e, r)) = reference(ops, t, p + 1, rp(o), st) {
-                        lhs = format!("({}{}{})[{}..{}]", lhs, o.sym, r, pos, e);
+                        lhs = format!("({}{}{})[{}..{}]#{}", lhs, o.sym, r, pos, e, e);
                         p = e;
                         continue 'outer;
                     } else {
@@ -144,7 +144,8 @@ pub fn flatten(r: &str) -> String {
             '[' => depth_sq += 1,
             ']' => depth_sq -= 1,
             '(' | ')' => {}
-            c if depth_sq == 0 => out.push(c),
+            '#' => {}
+            c if depth_sq == 0 && !(c.is_ascii_digit()) => out.push(c),
             _ => {}
         }
     }
@@ -153,12 +154,15 @@ pub fn flatten(r: &str) -> String {
 
 // ---- the implementation under test -----------------------------------------------------------------------
 
-type Ex<'a> = extra::Err<Rich<'a, char>>;
+type Ex<'a> = chumsky::extra::Full<Rich<'a, char>, cvh::interp::Track, ()>;
 type BOp<'a> = chumsky::pratt::Boxed<'a, 'a, &'a str, String, Ex<'a>>;
 type BP<'a> = chumsky::Boxed<'a, 'a, &'a str, String, Ex<'a>>;
 
-fn sp(s: SimpleSpan) -> String {
-    format!("[{}..{}]", s.start, s.end)
+fn sp(e: &mut MX<'_, '_>) -> String {
+    // the span of the sub-expression being built and the inspector's token count when the callback runs
+    let s: SimpleSpan = e.span();
+    let n = e.state().count;
+    format!("[{}..{}]#{}", s.start, s.end, n)
 }
 
 type MX<'a, 'b> = chumsky::input::MapExtra<'a, 'b, &'a str, Ex<'a>>;
@@ -167,14 +171,14 @@ macro_rules! mk_pre {
     ($o:expr) => {{
         let o: Op = $o;
         let s = o.sym;
-        prefix(o.bp, just::<_, &'a str, Ex<'a>>(s), move |_, r: String, e: &mut MX<'a, '_>| format!("({s}{r}){}", sp(e.span())))
+        prefix(o.bp, just::<_, &'a str, Ex<'a>>(s), move |_, r: String, e: &mut MX<'a, '_>| format!("({s}{r}){}", sp(e)))
     }};
 }
 macro_rules! mk_post {
     ($o:expr) => {{
         let o: Op = $o;
         let s = o.sym;
-        postfix(o.bp, just::<_, &'a str, Ex<'a>>(s), move |l: String, _, e: &mut MX<'a, '_>| format!("({l}{s}){}", sp(e.span())))
+        postfix(o.bp, just::<_, &'a str, Ex<'a>>(s), move |l: String, _, e: &mut MX<'a, '_>| format!("({l}{s}){}", sp(e)))
     }};
 }
 macro_rules! mk_inf {
@@ -182,7 +186,7 @@ macro_rules! mk_inf {
         let o: Op = $o;
         let s = o.sym;
         infix(if o.kind == Kind::InR { right(o.bp) } else { left(o.bp) }, just::<_, &'a str, Ex<'a>>(s), move |l: String, _, r: String, e: &mut MX<'a, '_>| {
-            format!("({l}{s}{r}){}", sp(e.span()))
+            format!("({l}{s}{r}){}", sp(e))
         })
     }};
 }
@@ -347,8 +351,14 @@ pub struct PrattUnit {
 
 fn run_one<'a>(p: &BP<'a>, s: &'a str) -> Result<(Option<String>, usize, bool), String> {
     catch_unwind(AssertUnwindSafe(|| {
-        let (o, e) = p.parse(s).into_output_errors();
-        let c = p.check(s);
+        let mut st = cvh::interp::Track::default();
+        let (o, e) = p.parse_with_state(s, &mut st).into_output_errors();
+        let mut st2 = cvh::interp::Track::default();
+        let c = p.check_with_state(s, &mut st2);
+        // after a successful parse the inspector has seen exactly the whole input
+        if o.is_some() && (st.count as usize != s.chars().count() || (st.count, st.hash) != (st2.count, st2.hash)) {
+            return (Some("<final inspector state is not the whole input>".to_string()), e.len(), c.has_output());
+        }
         (o, e.len(), c.has_output())
     }))
     .map_err(|e| cvh::e1::panic_msg(e))
